@@ -19,10 +19,10 @@ ASSUMPTIONS = ['finite standard models with type-variable domains of size <= 3, 
                '_VAR interpreted as the constantly true predicate',
                'evaluator calibrated at start-up: every theorem of logic_base must be valid in it']
 REQUIRED = {'quick': {'nested_scripts': 100, 'nested_accepted': 20, 'scripts_accepted': 300, 'sequents_judged': 1500, 'rules_all15_seen': 1,
-                      'directed_svar_hyp_sequents': 60, 'directed_stv_substitutions': 150, 'directed_capture_attempts': 60, 'directed_sharing_binders': 100,
+                      'directed_svar_hyp_sequents': 60, 'directed_stv_in_hyp_only': 60, 'directed_stv_substitutions': 150, 'directed_capture_attempts': 60, 'directed_sharing_binders': 100,
                       'open_term_arguments': 40},
             'thorough': {'nested_scripts': 1500, 'nested_accepted': 300, 'scripts_accepted': 5000, 'sequents_judged': 20000, 'rules_all15_seen': 1,
-                         'directed_svar_hyp_sequents': 600, 'directed_stv_substitutions': 1500, 'directed_capture_attempts': 600, 'directed_sharing_binders': 1000,
+                         'directed_svar_hyp_sequents': 600, 'directed_stv_in_hyp_only': 600, 'directed_stv_substitutions': 1500, 'directed_capture_attempts': 600, 'directed_sharing_binders': 1000,
                          'open_term_arguments': 400}}
 
 RULES = ['assume', 'implies_intr', 'implies_elim', 'reflexive', 'symmetric', 'transitive',
@@ -199,6 +199,40 @@ class ScriptGen:
             self.add('abstraction', S.to_repo_term(x), [len(self.shs) - 1])
         return ok
 
+    def directed_stv_in_hyp_only(self):
+        """A, H2 |- ?C where A = !x y::?'a. x = y mentions the type variable only, H2 = (?a = ?b --> ?C) is the only
+        place where the schematic variables ?a ?b :: ?'a occur, and the conclusion mentions neither: a substitution of
+        ?a, ?b at a concrete type must instantiate ?'a in A as well, whatever order the sequent is processed in"""
+        from kernel.term import Inst
+        rng = self.rng
+        a = ('stv', rng.choice(['a', 'b']))
+        B_ = S.BOOL
+        EQ = ('const', 'equals', S.funs(a, a, B_))
+        ALL = ('const', 'all', S.fun(S.fun(a, B_), B_))
+        A_ = ('comb', ALL, ('abs', 'x', a, ('comb', ALL, ('abs', 'y', a, S.mk_comb(EQ, ('bound', 1), ('bound', 0))))))
+        sa, sb, sc = ('svar', 'a', a), ('svar', 'b', a), ('svar', 'C', B_)
+        H2 = S.mk_comb(('const', 'implies', S.funs(B_, B_, B_)), S.mk_comb(EQ, sa, sb), sc)
+        b0 = len(self.shs)
+        seq = [('assume', S.to_repo_term(A_), []), ('forall_elim', S.to_repo_term(sa), [b0]), ('forall_elim', S.to_repo_term(sb), [b0 + 1]),
+               ('assume', S.to_repo_term(H2), []), ('implies_elim', None, [b0 + 3, b0 + 2])]
+        for rule, args, prevs in seq:
+            if not self.add(rule, args, prevs):
+                return False
+        last = b0 + 4
+        if rng.random() < 0.6:
+            # the same sequent with its hypotheses collected in the other order (A first, then H2)
+            more = [('implies_intr', S.to_repo_term(H2), [b0 + 4]), ('assume', S.to_repo_term(H2), []), ('implies_elim', None, [b0 + 5, b0 + 6])]
+            for rule, args, prevs in more:
+                if not self.add(rule, args, prevs):
+                    return False
+            last = b0 + 7
+        T0 = rng.choice([B_, S.fun(B_, B_), self.tg.rand_type()])
+        inst = Inst()
+        inst['a'] = S.to_repo_term(self.tg.gen(T0, 0))
+        inst['b'] = S.to_repo_term(self.tg.gen(T0, 0))
+        self.ctx.count('directed_stv_in_hyp_only')
+        return self.add('substitution', inst, [last])
+
     def directed_svar_hyp(self):
         """a hypothesis whose schematic type variable occurs ONLY in the types of schematic term variables (?P ?x),
         then subst_type: hypotheses and conclusion must be instantiated alike"""
@@ -329,6 +363,8 @@ class ScriptGen:
             return self.directed_sharing()
         if r0 < 0.11:
             return self.directed_svar_hyp()
+        if r0 < 0.13:
+            return self.directed_stv_in_hyp_only()
         if rule == 'assume':
             t = None
             r = rng.random()
